@@ -78,6 +78,10 @@ func runC09(r *Run, p *Prog) {
 		isReader := map[*ssa.Function]bool{a.next: true, a.back: true}
 		for _, f := range a.methods {
 			isReader[f] = true
+			isReader[origFn(f)] = true
+		}
+		for f := range a.inlinedHelpers {
+			isReader[f] = true // analysed as part of the readers that call it
 		}
 		cg := BuildCallGraph(p)
 		var roots []*ssa.Function
